@@ -10,13 +10,16 @@ RULES = {
     "R-IMMUTSIG": shared_state.r_immutsig,
     "R-NONDET": shared_state.r_nondet,
     "R-SURFACE": surface.r_surface,
+    "R-APIBOUNDS": surface.r_apibounds,
     "R-ENTRY": entry.r_entry,
     "R-HELPER": entry.r_helper,
     "R-ERRSINK": entry.r_errsink,
+    "R-ZEROLEN": entry.r_zerolen,
     "R-TABLES": tables.r_tables,
     "R-CACHE": tables.r_cache,
     "R-ZEROGUARD": tables.r_zeroguard,
     "R-DFTBOUND": tables.r_dftbound,
+    "R-REPLAN": tables.r_replan,
     "R-DIRFLOW": dirflow.r_dirflow,
     "R-TWF64": precision.r_twf64,
     "R-BLUEMOD": precision.r_bluemod,
@@ -61,11 +64,13 @@ PROPS = {
     },
     "C16": {
         "level": "proof",
-        "rules": ["R-SURFACE"],
+        "rules": ["R-SURFACE", "R-APIBOUNDS"],
         "witnesses": ["W-API"],
         "explanation": "A frozen downstream crate names every public item of 6.4.1 with explicit signature ascriptions, trait bounds and "
                        "auto-trait obligations and must type-check against /repo under every cargo feature set; the exported name "
-                       "inventory (walk of public module children incl. re-exports) may only grow.",
+                       "inventory (walk of public module children incl. re-exports) may only grow; the bounds of every exported type definition, "
+                       "trait impl, inherent impl block and supertrait list may not be tightened (R-APIBOUNDS: this is what a concrete-type witness "
+                       "cannot see, e.g. `impl<T> Length for Radix4<T>` becoming `impl<T: FftNum>`).",
         "decides": "source compatibility of the 6.4.1 public surface (names, signatures, bounds, auto traits)",
         "does_not_decide": "behavioural compatibility",
         "assumptions": ["the witness was generated from the pinned 6.4.1 tree and reviewed", "x86_64 only"],
@@ -88,7 +93,7 @@ PROPS = {
     },
     "C04": {
         "level": "other",
-        "rules": ["R-TABLES", "R-DIRFLOW", "R-ZEROGUARD"],
+        "rules": ["R-TABLES", "R-DIRFLOW", "R-ZEROGUARD", "R-ZEROLEN"],
         "witnesses": [],
         "explanation": "Handler exhaustiveness and agreement of the planner tables, for every n: (R-TABLES) length literal -> Recipe variant -> "
                        "Recipe::len constant -> constructor type -> that type's Length::len constant agree for the scalar and SSE planners (both "
@@ -96,7 +101,8 @@ PROPS = {
                        "is_butterfly lists and every butterfly literal of plan_mixed_radix_base (and 0..9 from plan_fft) are constructor arms whose type "
                        "reports that length, every hard-coded plan satisfies base*radixes = key, every radix literal a planner can push has a "
                        "non-unreachable arm in construct_plan, recipe matches have no wildcard; (R-DIRFLOW) the requested direction is the only "
-                       "direction any constructor receives and fft_direction() reads it back; (R-ZEROGUARD) length 0 never reaches a factoriser.",
+                       "direction any constructor receives and fft_direction() reads it back; (R-ZEROGUARD) length 0 never reaches a factoriser; (R-ZEROLEN) "
+                       "every helper returns before the chunk loop when chunk_size == 0, so a length-0 transform accepts an empty buffer and terminates.",
         "decides": "no design-stage product can reach an 'Invalid butterfly len'/unreachable!() arm; reported len() and fft_direction() of planned butterflies/recipes equal the request",
         "does_not_decide": "panics that depend on residues of n (asserts in design_radixn, plan_bluesteins, divide_by().unwrap(), *Small preconditions)",
         "assumptions": ["x86_64 non-test code; neon/wasm planners are the always-Err stubs here"],
@@ -129,14 +135,14 @@ PROPS = {
     },
     "C10": {
         "level": "other",
-        "rules": ["R-CACHE", "R-NONDET", "R-NOSTATIC", "R-DIRFLOW"],
+        "rules": ["R-CACHE", "R-NONDET", "R-NOSTATIC", "R-DIRFLOW", "R-REPLAN"],
         "witnesses": [],
         "explanation": "Cache integrity and determinism of planning: an entry is filed under len()/fft_direction() of the stored object itself, so no "
                        "request history can make a lookup for (n,d) return an object that claims otherwise; look-ups use the requested direction; the crate "
                        "(hence every planner) contains no hash-order iteration, clock, RNG, environment, thread-id, address-to-integer or static "
                        "state, so equal request sequences build equal plans. Instances own their parts through Arc (W-API ascribes 'static).",
         "decides": "cache entries always satisfy their key; planning is a function of the request sequence and CPU feature bits",
-        "does_not_decide": "that each spliced plan computes the DFT (C01); index arithmetic of replan_with_cache",
+        "does_not_decide": "that each spliced plan computes the DFT (C01); arithmetic of plan rewriting beyond the one splice idiom checked by R-REPLAN (cached stage replaces exactly the chain prefix whose product it is)",
         "assumptions": ["x86_64 non-test code"],
     },
     "C02": {
